@@ -51,7 +51,8 @@ ASSUMPTIONS = [
     "planar or tilted (roll, pitch, height)",
     "expected values are the writer's own tables (mc/gen/t4.py); golden labels from mc/ref/labels.py; tolerance 1e-6",
 ]
-CATS = [("car", "pedestrian.adult", "bicycle"), ("bus", "animal", "truck"), ("weird.thing", "car", "motorbike")]
+# the last set: categories outside the label table that are parts of registered names (vehicle.car, pedestrian.person?, motorbike ...)
+CATS = [("car", "pedestrian.adult", "bicycle"), ("bus", "animal", "truck"), ("weird.thing", "car", "motorbike"), ("vehicle", "bike", "adult")]
 VIS = {"full": "FULL", "most": "MOST", "partial": "PARTIAL", "none": "NONE", "v80-100": "FULL", "v60-80": "MOST", "v40-60": "PARTIAL", "v0-40": "NONE"}
 STYLES = {"t4": ("full", "most", "partial", "none"), "nusc": ("v80-100", "v60-80", "v40-60", "v0-40")}
 POSE = {"i0": [((20.0, 3.0, 0.5), 0.2), ((21.0, 3.5, 0.5), 0.5), ((23.0, 4.0, 0.5), 3.0), ((24.0, 4.5, 0.6), -3.0)],
@@ -94,6 +95,9 @@ def run_unit(unit, acc):
             if unit["nsamp"] >= 3:
                 for sc in ([0, 1, 0, 1], [0, 1, 1, 0], [1, 0, 1, 1]):
                     check_case(dict(nsamp=unit["nsamp"], pres=pat, cats=ci, style="t4", variant=ci % 2, seed=_SEED[0], scenes=sc[:unit["nsamp"]]), acc)
+            # key frames one second apart (an instance missing from a sample is unannotated for two seconds)
+            if unit["nsamp"] >= 3:
+                check_case(dict(nsamp=unit["nsamp"], pres=pat, cats=ci, style="t4", variant=0, seed=_SEED[0], slow=True), acc)
             # the sample table is not in chronological order (rows keep their place: frame i is row i)
             if unit["nsamp"] >= 3:
                 for perm in ([2, 0, 1, 3], [0, 3, 1, 2], [3, 2, 1, 0]):
@@ -123,7 +127,8 @@ def check_case(case, acc):
         ego = egos[k % len(egos)]
         if case.get("tilt"):
             ego = (ego[0], ego[1], 0.3 + 0.1 * k, ego[2], 0.05 - 0.02 * k, -0.04 + 0.03 * k)
-        tsk = 1000000 + 100000 * (case["ts_perm"][k] if case.get("ts_perm") else k)
+        step = 1000000 if case.get("slow") else 100000     # slow: key frames one second apart (instances may be unannotated for > 1.5 s)
+        tsk = 1000000 + step * (case["ts_perm"][k] if case.get("ts_perm") else k)
         smp = dict(ts=tsk, ego=ego, anns=anns)
         if case["variant"]:   # the sensor data of a key frame is stamped a little before / after the sample itself
             smp.update(lidar_ts=tsk - 40000, cam_ts=tsk + 13000)
